@@ -476,3 +476,107 @@ def _combine(w, v, shape):
 
 def _one(v, shape):
     return v
+
+
+def reference_expression(expr, points, cell, wvals, cvals, entity=None):
+    """A[point][component][argument dof] for a UFL expression evaluated at reference points
+    (points of the cell, or of the reference facet `entity` of the cell)."""
+    expr = apply_algebra_lowering(expand_derivatives(expr))
+    expr, ph = split_sides(expr)
+    args = sorted(ufl.algorithms.extract_arguments(expr), key=lambda a: a.number())
+    if len(args) > 1:
+        raise Unsupported("expression with more than one argument")
+    dims = [int(a.ufl_function_space().ufl_element().dim) for a in args]
+    shape = expr.ufl_shape
+    comps = list(itertools.product(*[range(n) for n in shape])) if shape else [()]
+    points = np.asarray(points, dtype=float)
+    out = np.zeros((points.shape[0], len(comps), dims[0] if dims else 1))
+    for p in range(points.shape[0]):
+        if entity is None:
+            X = points[p]
+        else:
+            o, ax = facet_embedding(cell.cellname, entity)
+            X = o + ax @ points[p]
+        geo = [geometric_values(cell, X, entity, "exterior_facet" if entity is not None else "cell")]
+        for ci, comp in enumerate(comps):
+            for nder in (1, 2):
+                try:
+                    vals = _expr_point(expr, ph, args, dims, cell, X, geo, wvals, cvals, comp, nder)
+                    break
+                except NeedSecond:
+                    continue
+            out[p, ci, :] = vals
+    return out
+
+
+def _expr_point(expr, ph, args, dims, cell, X, geo, wvals, cvals, comp, nder):
+    mapping = {}
+    tabs = {}
+
+    def tab(el):
+        if el not in tabs:
+            tabs[el] = tabulate_physical(el, cell, X, nder)
+        return tabs[el]
+    arg_slots = []
+    for t in ufl.algorithms.analysis.extract_type(expr, ufl.classes.Terminal):
+        orig, side = ph.get(t, (t, None))
+        if isinstance(orig, ufl.Argument):
+            arg_slots.append((t, orig))
+        elif isinstance(orig, ufl.Coefficient):
+            v, d1, d2 = tab(orig.ufl_element())
+            w = np.asarray(wvals[orig][0])
+            mapping[t] = Field(orig.ufl_shape, _combine(w, v, None), _combine(w, d1, None) if d1 is not None else None,
+                               _combine(w, d2, None) if d2 is not None else None)
+        elif isinstance(orig, ufl.Constant):
+            mapping[t] = np.asarray(cvals[orig]).reshape(orig.ufl_shape) if orig.ufl_shape else np.asarray(cvals[orig]).reshape(-1)[0]
+        elif isinstance(orig, ufl.classes.GeometricQuantity) and not isinstance(orig, ufl.classes.SpatialCoordinate):
+            mapping[t] = _geo_value(orig, geo[0])
+    x0 = tuple(geo[0]["x"])
+    if not args:
+        return [expr(x0, mapping, comp)]
+    res = []
+    for i in range(dims[0]):
+        m = dict(mapping)
+        for t, orig in arg_slots:
+            v, d1, d2 = tab(orig.ufl_element())
+            m[t] = Field(orig.ufl_shape, v[i], d1[i] if d1 is not None else None, d2[i] if d2 is not None else None)
+        res.append(expr(x0, m, comp))
+    return res
+
+
+# UFL's point evaluation of ln() uses math.log only (a complex argument is silently cast to
+# real); the oracle evaluates it with cmath when the argument is complex.
+def _ln_evaluate(self, x, mapping, component, index_values):
+    import cmath
+    a = self.ufl_operands[0].evaluate(x, mapping, component, index_values)
+    if isinstance(a, (complex, np.complexfloating)) and complex(a).imag != 0.0:
+        return cmath.log(complex(a))
+    return math.log(complex(a).real if isinstance(a, (complex, np.complexfloating)) else a)
+
+
+ufl.mathfunctions.Ln.evaluate = _ln_evaluate
+
+
+# scipy is not installed: Bessel functions of integer order from their integral representations
+# (periodic trapezoid rule, exponentially convergent), independent of libm's jn/yn.
+def _bessel_evaluate(self, x, mapping, component, index_values):
+    a = self.ufl_operands[1].evaluate(x, mapping, component, index_values)
+    if isinstance(a, (complex, np.complexfloating)):
+        if complex(a).imag != 0.0:
+            raise ValueError("oracle: Bessel function of a complex argument")
+        a = complex(a).real
+    nu = float(self.ufl_operands[0])
+    if nu != int(nu):
+        raise ValueError("oracle: Bessel function of non-integer order")
+    n = int(nu)
+    kind = self._name[-1]
+    N = 4096
+    t = (np.arange(N) + 0.5) * (math.pi / N)
+    if kind == "j":
+        return float(np.sum(np.cos(n * t - a * np.sin(t))) / N)
+    if kind == "i":
+        return float(np.sum(np.exp(a * np.cos(t)) * np.cos(n * t)) / N)
+    raise ValueError("oracle: Bessel function of the second kind not supported")
+
+
+ufl.mathfunctions.BesselFunction.evaluate = _bessel_evaluate
